@@ -198,17 +198,17 @@ theorem inv_unique {n w i v : Nat} (hn : 1 < n) (hw : w < n) (hi : i < n) (h1 : 
 theorem n_lt_256_32 {v : Nat} (h : v < Spec.SM2.n) : v < 256 ^ 32 :=
   Nat.lt_trans h (by decide)
 
-/-- for 1 ≤ v < n: `ensure32Bytes(v)` decodes to the Montgomery form of v, and `Invert` followed by
+/-- for 1 ≤ v < n: the 32-byte encoding `v.FillBytes(buf)` decodes to the Montgomery form of v, and `Invert` followed by
     `ToBigInt` is the specification's inverse of v modulo n -/
 theorem ctx_scalarInv (v : Nat) (h1 : 1 ≤ v) (hv : v < Spec.SM2.n) :
-    ∃ e, Field.scalarSetBytes Fn (Point.pad32 (Bytes.ofNatMin v)) = .ok e ∧
+    ∃ e, Field.scalarSetBytes Fn (Bytes.ofNatBE 32 v) = .ok e ∧
       Field.toNat Fn (Field.invert Fn e) = Spec.SM2.invMod v Spec.SM2.n := by
   have hlen : (Bytes.ofNatBE 32 v).length = 32 := FiatWrappers.ofNatBE_length 32 v
   have hval : Bytes.toNatBE (Bytes.ofNatBE 32 v) = v :=
     FiatWrappers.toNatBE_ofNatBE 32 v (n_lt_256_32 hv)
   have hn1 : 1 < Spec.SM2.n := by decide
   refine ⟨v * Field.R % Spec.SM2.n, ?_, ?_⟩
-  · rw [SM2SignBytes.pad32_ofNatMin v (n_lt_256_32 hv), Props.C16.scalarSetBytes_eq_setBytes,
+  · rw [Props.C16.scalarSetBytes_eq_setBytes,
       Props.C16.setBytes_Fn_spec, if_pos ⟨hlen, by rw [hval]; exact hv⟩, hval]
   · have hb := Props.C16.bytes_spec (Field.invert Fn (v * Field.R % Spec.SM2.n))
     have hfm := Fn_fromMontgomery_toMont v hv
